@@ -173,16 +173,19 @@ func (c *cursorManager) GetCursor(ctx context.Context, streamName, cursorID stri
 		c.mu.RUnlock()
 	}
 
-	// Find the latest offset for the cursor in the log.
+	// Find the latest offset for the cursor in the log. The read lock is held
+	// across the scan and the cache fill so that a SetCursor completing in
+	// between cannot have its newer cached value overwritten by the older one
+	// found in the log (the cache itself is thread-safe).
+	c.mu.RLock()
+	defer c.mu.RUnlock()
 	offset, err := c.getLatestCursorOffset(ctx, cursorKey, partition)
 	if err != nil {
 		return 0, status.New(codes.Internal, err.Error())
 	}
 
 	// Cache the offset.
-	c.mu.Lock()
 	c.cache.Add(string(cursorKey), offset)
-	c.mu.Unlock()
 
 	return offset, nil
 }
